@@ -520,8 +520,10 @@ func performIDPRequest(log telemetry.Logger, client *http.Client, uri string, fo
 		return nil, codes.Internal
 	}
 
+	// Unmarshal into the struct itself (not into the pointer variable): a JSON `null` body would
+	// otherwise reset the pointer to nil and the callers would dereference it.
 	bodyTokens := &idpTokensResponse{}
-	err = json.Unmarshal(respBody, &bodyTokens)
+	err = json.Unmarshal(respBody, bodyTokens)
 	if err != nil {
 		log.Error("error unmarshalling tokens response", err)
 		return nil, codes.Internal
